@@ -11,5 +11,5 @@ Extraction "../ocaml/model.ml"
   directives_ok erase erase_ok lower first_diff_nospan plus_enabled tpl_enabled
   required_sites missing_sites hook_keys hygiene_issues shape_issues
   directives_of after_directives is_injected_let program_body blocks_of
-  roundtrip_ok norm_print
+  roundtrip_ok norm_print strip_parens
   to_config prologue_text.
